@@ -200,6 +200,49 @@ fn main() {
         all_distinct("BitVec content / length", &[mk(&[]), mk(&[0]), mk(&[1]), mk(&[0, 0]), mk(&[0, 1]), mk(&[1, 0]), mk(&[0; 8]), mk(&[0; 9]), mk(&[1, 0, 0, 0, 0, 0, 0, 0, 0])]);
         all_distinct("(BitVec,BitVec) boundary", &[(mk(&[1, 0]), mk(&[1])), (mk(&[1]), mk(&[0, 1])), (mk(&[1, 0, 1]), mk(&[])), (mk(&[]), mk(&[1, 0, 1]))]);
     }
+    {
+        // owned vs borrowed forms of path / OS / C strings; atomics vs the value they hold; wrappers
+        use std::ffi::{CStr, CString, OsStr, OsString};
+        use std::path::{Path, PathBuf};
+        use std::sync::atomic::*;
+        for t in ["", "a", "/usr/lib", "héllo/wörld", &"p".repeat(255), &"q".repeat(256)] {
+            same("PathBuf vs Path", &PathBuf::from(t), Path::new(t), t);
+            same("OsString vs OsStr", &OsString::from(t), OsStr::new(t), t);
+            same("Box<Path> vs PathBuf", &PathBuf::from(t).into_boxed_path(), &PathBuf::from(t), t);
+            if !t.contains('\0') { let c = CString::new(t).unwrap(); let r: &CStr = c.as_c_str(); same("CString vs CStr", &c, r, t); }
+        }
+        all_distinct("PathBuf values", &[PathBuf::from(""), PathBuf::from("a"), PathBuf::from("a/b"), PathBuf::from("a/b/"), PathBuf::from("/a/b"), PathBuf::from("ab")]);
+        all_distinct("(PathBuf,PathBuf) boundary", &[(PathBuf::from("ab"), PathBuf::from("c")), (PathBuf::from("a"), PathBuf::from("bc")), (PathBuf::from("abc"), PathBuf::from("")), (PathBuf::from(""), PathBuf::from("abc"))]);
+        all_distinct("(OsString,OsString) boundary", &[(OsString::from("ab"), OsString::from("c")), (OsString::from("a"), OsString::from("bc")), (OsString::from(""), OsString::from("abc"))]);
+        all_distinct("(CString,CString) boundary", &[(CString::new("ab").unwrap(), CString::new("c").unwrap()), (CString::new("a").unwrap(), CString::new("bc").unwrap()), (CString::new("").unwrap(), CString::new("abc").unwrap())]);
+        for x in [0u64, 1, 255, 256, u64::MAX, 1 << 40] {
+            same("AtomicU64 vs u64", &AtomicU64::new(x), &x, &format!("{x}"));
+            same("AtomicI32 vs i32", &AtomicI32::new(x as i32), &(x as i32), &format!("{}", x as i32));
+            same("AtomicU8 vs u8", &AtomicU8::new(x as u8), &(x as u8), &format!("{}", x as u8));
+            same("AtomicBool vs bool", &AtomicBool::new(x & 1 == 1), &(x & 1 == 1), &format!("{}", x & 1 == 1));
+            same("AtomicUsize vs usize", &AtomicUsize::new(x as usize), &(x as usize), &format!("{x}"));
+            same("AtomicI64 vs i64", &AtomicI64::new(x as i64), &(x as i64), &format!("{}", x as i64));
+            same("AtomicU16 vs u16", &AtomicU16::new(x as u16), &(x as u16), &format!("{}", x as u16));
+        }
+    }
+    all_distinct("Range<u8>", &[0u8..0, 0..1, 1..0, 1..1, 0..255, 255..0]);
+    all_distinct("RangeInclusive<u8>", &[0u8..=0, 0..=1, 1..=0, 1..=1, 0..=255, 255..=0]);
+    all_distinct("RangeFrom / RangeTo as pairs", &[(1u8.., ..2u8), (2u8.., ..1u8), (0u8.., ..0u8), (1u8.., ..1u8)]);
+    all_distinct("RangeToInclusive<u16>", &[..=0u16, ..=1, ..=255, ..=256, ..=65535]);
+    all_distinct("(Range<u8>,Range<u8>) boundary", &[(0u8..1, 2u8..3), (0u8..2, 1u8..3), (0u8..1, 3u8..2)]);
+    all_distinct("NonZeroU32", &[std::num::NonZeroU32::new(1).unwrap(), std::num::NonZeroU32::new(2).unwrap(), std::num::NonZeroU32::new(256).unwrap(), std::num::NonZeroU32::new(1 << 24).unwrap(), std::num::NonZeroU32::MAX]);
+    all_distinct("NonZeroI64", &[std::num::NonZeroI64::new(1).unwrap(), std::num::NonZeroI64::new(-1).unwrap(), std::num::NonZeroI64::MIN, std::num::NonZeroI64::MAX, std::num::NonZeroI64::new(1 << 32).unwrap()]);
+    all_distinct("[u8;4]", &[[0u8, 0, 0, 0], [1, 0, 0, 0], [0, 1, 0, 0], [0, 0, 1, 0], [0, 0, 0, 1], [1, 1, 0, 0]]);
+    all_distinct("[[u8;2];2] vs order", &[[[1u8, 2], [3, 4]], [[1, 2], [4, 3]], [[2, 1], [3, 4]], [[3, 4], [1, 2]]]);
+    all_distinct("3-tuples vs order", &[(1u8, 2u16, 3u32), (1, 3, 2), (2, 1, 3), (3, 2, 1), (0, 0x0102, 3), (1, 2, 0x0003_0000)]);
+    all_distinct("u128 halves", &[1u128, 1 << 64, (1 << 64) | 1, u128::MAX, u128::MAX - 1, 1 << 127]);
+    all_distinct("f32", &[0.0f32, 1.0, -1.0, f32::INFINITY, f32::NEG_INFINITY, f32::MIN_POSITIVE, f32::MAX, f32::MIN]);
+    all_distinct("f64", &[0.0f64, 1.0, -1.0, f64::INFINITY, f64::NEG_INFINITY, f64::MIN_POSITIVE, f64::MAX, f64::MIN]);
+    all_distinct("char", &['\0', 'a', 'b', '\u{7f}', '\u{80}', '\u{ffff}', '\u{10000}', '\u{10ffff}']);
+    all_distinct("BTreeSet<u8>", &[BTreeSet::from([1u8, 2]), BTreeSet::from([1u8]), BTreeSet::from([2u8]), BTreeSet::new(), BTreeSet::from([1u8, 2, 3]), BTreeSet::from([12u8])]);
+    all_distinct("VecDeque<u8> content", &[VecDeque::from(vec![1u8, 2]), VecDeque::from(vec![2u8, 1]), VecDeque::from(vec![1u8]), VecDeque::new(), VecDeque::from(vec![1u8, 2, 0])]);
+    all_distinct("BinaryHeap<u8> content", &[BinaryHeap::from(vec![1u8, 2]), BinaryHeap::from(vec![1u8]), BinaryHeap::from(vec![2u8]), BinaryHeap::new(), BinaryHeap::from(vec![1u8, 1])].iter().map(|h| { let mut v = h.clone().into_sorted_vec(); v.sort(); (h.clone(), v) }).map(|(h, _)| h.into_sorted_vec()).collect::<Vec<_>>());
+    all_distinct("Box<[u8]> / empty slices next to non-empty ones", &[(vec![].into_boxed_slice(), vec![5u8].into_boxed_slice()), (vec![5u8].into_boxed_slice(), vec![].into_boxed_slice()), (vec![].into_boxed_slice(), vec![].into_boxed_slice()), (vec![5u8, 5].into_boxed_slice(), vec![].into_boxed_slice())]);
     all_distinct("bool tuples", &[(true, false), (false, true), (true, true), (false, false)]);
     all_distinct("Range vs RangeInclusive fields", &[(1u8..2).start as u16 * 256 + 2, 0x0201]);
     all_distinct("Duration", &[std::time::Duration::new(1, 0), std::time::Duration::new(0, 1), std::time::Duration::new(0, 0), std::time::Duration::new(1, 1)]);
